@@ -12,11 +12,13 @@ from . import ux as hux
 SCALES = ("deg10", "ulp", "nano")
 
 # the base mesh: 5 nodes, two triangles (+ one optional extra node / extra face)
-BASE_LON = [30.0, 41.0, 52.0, 33.0]
+BASE_LON = [-50.0, -39.0, -28.0, -47.0]  # western hemisphere: derived longitudes must be folded
 BASE_LAT = [-20.0, -11.0, 2.0, 13.0]
-BASE_CONN = [[0, 1, 2], [0, 2, 3]]
-LON_I, LAT_I, CONN_F, CONN_J = 1, 2, 1, 2  # the distinguished entries
-CONN_VALS = (3, 1)
+# three triangles around node 0; the distinguished connectivity entry toggles the last corner of the
+# third one between two nodes, and every node stays in use either way
+BASE_CONN = [[0, 1, 2], [0, 2, 3], [0, 3, 1]]
+LON_I, LAT_I, CONN_F, CONN_J = 1, 2, 2, 2  # the distinguished entries
+CONN_VALS = (1, 2)
 
 
 def _val(base, v, scale):
@@ -40,20 +42,43 @@ def arrays(c, scale):
     lat[LAT_I] = _val(BASE_LAT[LAT_I], c["lat"], scale)
     conn[CONN_F][CONN_J] = CONN_VALS[c["conn"]]
     if c["nn"]:
-        lon.append(44.0)
+        lon.append(-36.0)
         lat.append(25.0)
     if c["nf"]:
         conn.append([1, 2, 3])
     return lon, lat, conn
 
 
-def build(c, scale):
+def _xyz(lon, lat):
+    import numpy as np
+
+    lo, la = np.radians(lon), np.radians(lat)
+    return [float(np.cos(la) * np.cos(lo)), float(np.cos(la) * np.sin(lo)), float(np.sin(la))]
+
+
+def node_index(g, base_node):
+    """index, in grid g, of the node that started as `base_node` of the base mesh (the face-vertex constructor
+    numbers nodes itself): the nearest node; base nodes are degrees apart, edits move a node by at most 10 degrees
+    in one coordinate"""
+    import numpy as np
+
+    lon, lat = np.asarray(g.node_lon.values, dtype=float), np.asarray(g.node_lat.values, dtype=float)
+    d = np.minimum(abs(lon - BASE_LON[base_node]), 360.0 - abs(lon - BASE_LON[base_node])) + abs(lat - BASE_LAT[base_node])
+    return int(np.argmin(d))
+
+
+def build(c, scale, route="lonlat"):
     import numpy as np
 
     ux = hux.import_ux()
     INT_DTYPE, FILL = hux.consts()
     lon, lat, conn = arrays(c, scale)
-    g = ux.Grid.from_topology(np.array(lon, dtype=float), np.array(lat, dtype=float), np.array(conn, dtype=INT_DTYPE), fill_value=FILL)
+    if route == "xyz":
+        # Cartesian corner coordinates only: longitudes and latitudes are derived lazily by the grid
+        verts = np.array([[_xyz(lon[n], lat[n]) for n in f] for f in conn], dtype=float)
+        g = ux.Grid.from_face_vertices(verts, latlon=False)
+    else:
+        g = ux.Grid.from_topology(np.array(lon, dtype=float), np.array(lat, dtype=float), np.array(conn, dtype=INT_DTYPE), fill_value=FILL)
     if c["spec"] == "B":
         g = ux.Grid.from_dataset(g._ds.copy(deep=True), source_grid_spec="UGRID")
     return g
@@ -82,7 +107,7 @@ def init_content(kind):
 
 
 def touch(g, t):
-    if t in ("n_edge", "face_edge_connectivity", "bounds", "face_areas", "node_x", "face_lon", "n_nodes_per_face"):
+    if t in ("n_edge", "face_edge_connectivity", "bounds", "face_areas", "node_x", "face_lon", "n_nodes_per_face", "node_lon", "node_lat"):
         v = getattr(g, t)
         if hasattr(v, "values"):
             v.values  # noqa: B018  (materialise)
@@ -96,7 +121,7 @@ def touch(g, t):
         raise ValueError(t)
 
 
-def edit(g, f, how, scale, bit):
+def edit(g, f, how, scale, bit, route="lonlat"):
     """set the distinguished entry of field f to its abstract value `bit`, through the setter (a new array) or in place"""
     import numpy as np
     import xarray as xr
@@ -104,12 +129,21 @@ def edit(g, f, how, scale, bit):
     name = {"lon": "node_lon", "lat": "node_lat", "conn": "face_node_connectivity"}[f]
     cur = getattr(g, name)
     if f == "conn":
-        new = CONN_VALS[bit]
+        new = CONN_VALS[bit] if route == "lonlat" else node_index(g, CONN_VALS[bit])
         idx = (CONN_F, CONN_J)
     else:
         i, base = (LON_I, BASE_LON[LON_I]) if f == "lon" else (LAT_I, BASE_LAT[LAT_I])
         new = _val(base, bit, scale)
         idx = (i,)
+        if route == "xyz":
+            # the value a grid built with that content derives from its Cartesian coordinates (floating-point
+            # trigonometry), at the position this grid gave the node
+            c = dict(C0)
+            c[f] = bit
+            ref = build(c, scale, route)
+            new = float(getattr(ref, name).values[node_index(ref, i)])
+            idx = (node_index(g, i),)
+        cur = getattr(g, name)
     if how == "inplace":
         cur.values[idx] = new
     else:
@@ -119,12 +153,12 @@ def edit(g, f, how, scale, bit):
 
 
 def replay(job):
-    """job = (tid, init2, steps, scale) -> trace record"""
-    tid, init2, steps, scale = job
-    out = {"tid": tid, "init2": init2, "scale": scale, "events": []}
+    """job = (tid, init2, route, steps, scale) -> trace record"""
+    tid, init2, route, steps, scale = job
+    out = {"tid": tid, "init2": init2, "route": route, "scale": scale, "events": []}
     try:
         cont = {1: dict(C0), 2: init_content(init2)}  # bookkeeping for realising edits only; verdicts are TLC's
-        objs = {1: build(cont[1], scale), 2: build(cont[2], scale)}
+        objs = {1: build(cont[1], scale, route), 2: build(cont[2], scale, route)}
     except Exception as e:  # noqa
         out["harness_error"] = "build: %s: %s" % (type(e).__name__, str(e)[:200])
         return out
@@ -141,12 +175,17 @@ def replay(job):
             elif act == "Edit":
                 ev["o"], ev["f"], ev["how"] = int(args[0]), args[1], args[2]
                 cont[ev["o"]][ev["f"]] = 1 - cont[ev["o"]][ev["f"]]
-                edit(objs[ev["o"]], ev["f"], ev["how"], scale, cont[ev["o"]][ev["f"]])
+                edit(objs[ev["o"]], ev["f"], ev["how"], scale, cont[ev["o"]][ev["f"]], route)
             elif act == "Copy":
                 ev["o"], ev["how"] = int(args[0]), args[1]
                 src = objs[ev["o"]]
-                objs[3 - ev["o"]] = src.copy() if ev["how"] == "copy" else _copy.deepcopy(src)
-                cont[3 - ev["o"]] = dict(cont[ev["o"]])
+                if ev["how"] == "copy":
+                    objs[3 - ev["o"]] = src.copy()
+                elif ev["how"] == "deepcopy":
+                    objs[3 - ev["o"]] = _copy.deepcopy(src)
+                else:  # "isel_all": every face, in order
+                    objs[3 - ev["o"]] = src.isel(n_face=list(range(int(src.n_face))))
+                cont[3 - ev["o"]] = dict(cont[ev["o"]], nn=0) if ev["how"] == "isel_all" else dict(cont[ev["o"]])
             elif act == "Compare":
                 ev["x"], ev["y"] = int(args[0]), int(args[1])
                 a, b = objs[ev["x"]], objs[ev["y"]]
